@@ -64,7 +64,7 @@ Definition op_text (t : tokty) : str := tokty_name t.
 (* A regexp token is spelled without flags: the lexer encodes the flags i, m
    of /body/im as the prefix "(?im)" of the token text, and /(?im)body/
    yields the very same token, so re_lit of the whole text is a spelling of
-   every regexp token with a NUL-free text. *)
+   every regexp token with a non-empty text. *)
 Definition spell (t : token) : str :=
   match tclass_of (tty t) with
   | CWord | COp | CInt | CFloat => tlit t
@@ -109,12 +109,12 @@ Definition lit_ok (t : token) : bool :=
   | COp => str_eqb (tlit t) (op_text (tty t))
   | CInt => negb (is_nil (tlit t)) && all_digits (tlit t)
   | CFloat => float_shaped (tlit t)
-  | CString => nul_free (tlit t)
+  | CString => true       (* any text, the character 0 included *)
   | CRegexp =>
-      (* an empty regexp would be spelled "//", which is a comment; the lexer
-         can produce a regexp text containing NUL (from backslash NUL) but
-         re_lit does not escape NUL, so such texts are excluded *)
-      negb (is_nil (tlit t)) && nul_free (tlit t)
+      (* an empty regexp would be spelled "//", which is a comment; any other
+         text is fine (the character 0 is an ordinary character inside a
+         regexp literal) *)
+      negb (is_nil (tlit t))
   | CZero => is_nil (tlit t)
   | CNone => false
   end.
@@ -157,7 +157,7 @@ Inductive piece :=
 Definition piece_ok (p : piece) : bool :=
   match p with
   | Ws c => is_whitespace c
-  | Cm b => forallb (fun c => negb (c =? 10) && negb (c =? 0)) b
+  | Cm b => forallb (fun c => negb (c =? 10)) b
   end.
 
 Definition render_piece (p : piece) : str :=
